@@ -226,6 +226,22 @@ var deviantFlags = []struct {
 		}
 		return false
 	}, nil},
+	{"label_filter_sees_later_parser", func(r *Rules) { r.LaterParserVisible = true }, func(q *Query) bool {
+		sawLabel := false
+		for i, s := range q.Stages {
+			switch s.Kind {
+			case "label":
+				if firstParserIdx(q) < i || dropBefore(q, i) {
+					sawLabel = true
+				}
+			case "json", "regexp":
+				if sawLabel {
+					return true
+				}
+			}
+		}
+		return false
+	}, nil},
 	{"label_filter_before_parser_ignores_drop", func(r *Rules) { r.HoistedLabelFilter = true }, func(q *Query) bool {
 		sawDrop := false
 		for _, s := range q.Stages {
@@ -815,7 +831,6 @@ func observations(start, end int64) map[string]string {
 	return out
 }
 
-
 // simpleQuery: at most one stage, and that stage is not a multi-leaf label-filter tree (quick tier: only these get
 // the window / limit / direction / cluster variants).
 func simpleQuery(q *Query) bool {
@@ -827,7 +842,6 @@ func simpleQuery(q *Query) bool {
 	}
 	return true
 }
-
 
 // cutSkipsFailing: with the limit applied to the oracle's match set, is there an in-window log-type entry that does
 // NOT match the query but is newer (older, when forward) than the last returned line?  Only then a LIMIT placed
@@ -860,4 +874,13 @@ func cutSkipsFailing(db *Database, full []Row, p Params) bool {
 		}
 	}
 	return inside > matchingInside
+}
+
+func firstParserIdx(q *Query) int {
+	for i, s := range q.Stages {
+		if s.Kind == "json" || s.Kind == "regexp" {
+			return i
+		}
+	}
+	return len(q.Stages)
 }
